@@ -113,6 +113,7 @@ const T& pick(Rng& r, const T (&a)[N]) {
   return a[r.below(N)];
 }
 
+inline uint32_t pickl_u(Rng& r, std::initializer_list<uint32_t> l) { return *(l.begin() + r.below(uint32_t(l.size()))); }
 inline const char* pickl(Rng& r, std::initializer_list<const char*> l) {
   return *(l.begin() + r.below(uint32_t(l.size())));
 }
@@ -252,7 +253,16 @@ inline std::string gen_mixed_idn_host(Rng& r) {
 
 inline std::string gen_host(Rng& r) {
   switch (r.below(22)) {
-    case 17: case 18: return gen_ipv4ish_host(r);
+    case 17: case 18:
+      if (r.chance(1, 12)) {  // very long plain hosts: beyond the DNS limits (63 per label, 253 in total), which URLs do not have
+        std::string o;
+        uint32_t target = pickl_u(r, {64, 200, 253, 254, 255, 300, 1000});
+        if (r.chance(1, 2)) o = std::string(target, char('a' + r.below(26)));
+        else
+          while (o.size() < target) o += gen_label(r, r.range(1, 63)) + ".";
+        return o;
+      }
+      return gen_ipv4ish_host(r);
     case 19: case 20: return gen_ipv6_host(r);
     case 21: return gen_mixed_idn_host(r);
     case 0: case 1: case 2: {  // ascii domain, lengths straddling 16/32
@@ -413,7 +423,8 @@ inline std::string gen_port(Rng& r) {
 
 // userinfo built from chunks: any number of '@' and ':' in any order ("u@v:w@", ":@:", "a:b@c@")
 inline std::string gen_credentials(Rng& r) {
-  static const char* const chunk[] = {"u", "v", "w", "user", "pass", "a b", "\xc3\xa9", "%40", "x%zz", "", "p:q", ";=", "[", "^", "|"};
+  static const char* const chunk[] = {"u", "v", "w", "user", "pass", "a b", "\xc3\xa9", "%40", "x%zz", "", "p:q", ";=", "[", "^", "|",
+                                      "\\", "us\\er", "/", "?", "#x"};
   std::string o;
   int n = r.range(1, 4);
   for (int i = 0; i < n; i++) {
